@@ -344,6 +344,11 @@ func (a *VersionedAggregatedAttestation) UnmarshalJSON(input []byte) error {
 
 	resp.ValidatorIndex = raw.ValidatorIndex
 
+	// A JSON null attestation unmarshals into a nil pointer; reject it like the constructor does.
+	if _, err := NewVersionedAggregatedAttestation(&resp); err != nil {
+		return errors.Wrap(err, "invalid aggregated attestation")
+	}
+
 	a.VersionedAttestation = resp
 
 	return nil
@@ -612,6 +617,11 @@ func (p *VersionedProposal) UnmarshalJSON(input []byte) error {
 		}
 	default:
 		return errors.New("unknown version")
+	}
+
+	// A JSON null block unmarshals into a nil pointer; reject it like the constructor does.
+	if _, err := NewVersionedProposal(&resp); err != nil {
+		return errors.Wrap(err, "invalid proposal")
 	}
 
 	*p = VersionedProposal{VersionedProposal: resp}
